@@ -136,6 +136,14 @@ def _id_validated_problems(prog, fn, g, n, depth=0):
         a = strip_all(atom)
         if truth and is_call(a) and "decode_sector_address" in notpl(a.get("q") or ""):
             dec_ok = a
+    if dec_ok is None and n.get("k") == "ReturnStmt" and n.get("c"):
+        # `return decode(...)` / `const bool ok = decode(...); ...; return ok;`: the function reports success
+        # exactly when the decoder did
+        e = strip_all(n["c"][0])
+        if e is not None and e.get("k") == "DeclRefExpr" and e.get("d") in getattr(g, "bool_defs", {}):
+            e = strip_all(g.bool_defs[e["d"]])
+        if e is not None and is_call(e) and "decode_sector_address" in notpl(e.get("q") or ""):
+            dec_ok = e
     problems = []
     if dec_ok is not None:
         crc_bufs = _crc_ok_facts(fn, g, n)
@@ -267,6 +275,11 @@ def rule_crc_gating(prog, fixture=False):
                         a = call_args(u)
                         if len(a) == 3 and any(x.get("k") == "MemberExpr" and x.get("n") == "data" for x in walk(a[2])):
                             srcs.append(a[0])
+                    # sec.data.assign(src.begin()+.., ..) / sec.data = vector(src.begin()+.., ..)
+                    if u.get("k") == "CXXMemberCallExpr" and (strip(u["c"][0]) or {}).get("n") == "assign" and len(u["c"]) >= 3:
+                        recv = (strip(u["c"][0]) or {}).get("c", [None])[0]
+                        if recv is not None and any(x.get("k") == "MemberExpr" and x.get("n") == "data" for x in walk(recv)):
+                            srcs.append(u["c"][1])
                 for b in crc_bufs:
                     if any(x.get("k") == "MemberExpr" and x.get("n") == "data" and pushed is not None and
                            any(y.get("k") == "DeclRefExpr" and y.get("d") == pushed.get("d") for y in walk(x))
@@ -385,6 +398,11 @@ def rule_address_lookup(prog, fixture=False):
                                     for t in prog.call_targets(fn, c):
                                         if _helper_compares_address(t, prog):
                                             ok, why = True, "found by %s, which compares addresses" % t.qn
+                                # the search written out here: std::find_if with a predicate (a lambda of this
+                                # function) that compares addresses
+                                if c.get("k") == "CallExpr" and notpl(c.get("q") or "") in ("std::find_if", "std::find_if_not") \
+                                        and _helper_compares_address(fn, prog):
+                                    ok, why = True, "found by std::find_if with an address-comparing predicate"
             r.add(key + "::copy", fn.loc(n), ok, why if ok else
                   "the sector returned is not selected by its recorded address (e.g. taken by ordinal position): when "
                   "a damaged sector has been dropped, another sector's data is returned in its place")
